@@ -44,6 +44,10 @@ fn main() {
     let thorough = a.tier == "thorough";
     let mut rep = Report::new(&a.prop, &a.stage, &a.tier, a.seed);
     let replay_seed: Option<u64> = a.replay.as_ref().and_then(|s| s.parse().ok());
+    // C02 and C14 state that calls RETURN: a call that does not is observed by a watchdog (util.rs)
+    if matches!(a.prop.as_str(), "C02" | "C14") {
+        vh::util::start_call_watchdog(&a.prop, &a.stage, &a.tier, a.seed, &a.out);
+    }
     match a.prop.as_str() {
         "C16" => {
             let n = a.n.unwrap_or(if thorough { 400_000 } else { 30_000 });
